@@ -12,13 +12,21 @@ import (
 func init() {
 	kernel.Register(&kernel.Rig{
 		Property: "C16", Name: "R-cluster/hostile-peer", Level: "exploration",
-		Rule: "one run = one seeded cluster configuration x one schedule x a hostile peer (holding a validator key of minimal power) that sends, every 5-85 virtual ms until GST, one message to one honest node in whatever consensus state it is in: raw garbage, bit-flipped/truncated/wrong-channel genuine traffic, and well-typed proposals, block parts, votes, vote-set bits, majority claims and step announcements with boundary fields (-1, maxint32, maxint64, minint64, 0, cur+-1, nil components, bit arrays whose Bits disagree with Elems); each hostile message is one event; oracle evaluations = hostile messages delivered; non-trivial = honest nodes committed >= 2 heights; distinct = committed chain + events + final time",
-		Real: []string{"consensus.ConsensusReactor.Receive + PeerState", "consensus.ConsensusState (real receiveRoutine incl. its recover())", "types.PartSet/VoteSet/HeightVoteSet", "libs/ser decoding", "FilePV, app, stores"},
-		Stub: []string{"p2p connection layer (a panic inside Receive is what MConnection's recover turns into 'drop that peer': counted, not a violation)", "timeout ticker (simulator-controlled)", "gossip routines (stand-in)", "SimDB", "libxcrypto model"},
+		Rule:        "one run = one seeded cluster configuration x one schedule x a hostile peer (holding a validator key of minimal power) that sends, every 5-85 virtual ms until GST, one message to one honest node in whatever consensus state it is in: raw garbage, bit-flipped/truncated/wrong-channel genuine traffic, and well-typed proposals, block parts, votes, vote-set bits, majority claims and step announcements with boundary fields (-1, maxint32, maxint64, minint64, 0, cur+-1, nil components, bit arrays whose Bits disagree with Elems); each hostile message is one event; oracle evaluations = hostile messages delivered; non-trivial = honest nodes committed >= 2 heights; distinct = committed chain + events + final time",
+		Real:        []string{"libs/p2p/conn.MConnection around the reactor for 1/3 of the hostile messages (packets written to a pipe, the real receive routine calls Receive; what a panic in Receive costs is decided by the real recover path, and a process that dies is a violation: kernel crash classifier)", "consensus.ConsensusReactor.Receive + PeerState", "consensus.ConsensusState (real receiveRoutine incl. its recover())", "types.PartSet/VoteSet/HeightVoteSet", "libs/ser decoding", "FilePV, app, stores"},
+		Stub:        []string{"for the other 2/3 of the hostile messages and all honest traffic the connection layer is the simulator (Receive called directly; a panic inside Receive is what MConnection's recover turns into 'drop that peer': counted, not a violation)", "secret connection, switch", "timeout ticker (simulator-controlled)", "gossip routines (stand-in)", "SimDB", "libxcrypto model"},
 		Assumptions: []string{"messages classified 'must not change state' are invalid by construction (forged proofs, wrong signatures, out-of-range fields); flipped genuine traffic carries no state claim", "allocation bound 256 MiB per message", "liveness demanded >= 90 s of quiet virtual time after the last hostile message"},
-		QuickRuns: 200, QuickBudget: 75 * time.Second, ThoroughRuns: 8000, ThoroughBudget: 25 * time.Minute,
+		QuickRuns:   200, QuickBudget: 75 * time.Second, ThoroughRuns: 8000, ThoroughBudget: 25 * time.Minute,
 		RunsPerProcess: 40, RunTimeout: 600 * time.Second,
 		HangTimeout: 40 * time.Second, OnHang: cluster.HostileHang,
+		OnCrash: func(log string) (string, string, string, bool) {
+			// an unrecovered panic on a goroutine of the node: the process is gone
+			v, site := kernel.CrashSite(log, "github.com/lianxiangcloud/linkchain/")
+			if site == "" {
+				return "", "", "", false // not in the code under test: harness trouble
+			}
+			return "process-crash", "C16/process-crash/" + site, "a message from the hostile peer killed the node's process (unrecovered panic outside every recover): " + v, true
+		},
 		Run: func(c *kernel.Ctx) { cluster.RunMode(c, cluster.ModeHostile) },
 	})
 }
